@@ -19,9 +19,9 @@ Idle on the armed edge; `armed = false` is reached only after the answer wait co
 message reaches sc_write(Busy) + netw_send and then the eviction attempt; (e) PASE sessions are purged on CommissioningComplete and on
 fail-safe expiry; PaseResponder::handle clears the in-progress marker on every failing path.
 """
-CLAUSES = ['a: reserved session slots released on drop unless completed', 'b: rendezvous guards armed without an await gap', 'c: eviction skips reserved sessions and sessions with exchanges',
+CLAUSES = ['a: reserved session slots released on drop unless completed', 'b: rendezvous guards armed without an await gap and resetting every non-Idle state', 'c: eviction skips reserved sessions and sessions with exchanges',
            'd: busy answer when the session table is full', 'e: PASE sessions and the in-progress marker are purged',
-           'f: the dropped-exchange sweep reaches every dropped exchange']
+           'f: the dropped-exchange sweep reaches every dropped exchange; an expired session allocates no exchange slot']
 NOT_DECIDED = ['quiescence: every slot free again after traffic stops', 'a new legitimate handshake succeeds as soon as one session is idle', 'table sizes from the smallest configuration upwards']
 MIN_OBLIGATIONS = {'q': 22, 'd': 22, 'r': 22}
 
